@@ -64,7 +64,8 @@ class SchemaField:
             FIXMessageError: raised if validation failed
         """
         assert isinstance(value, str), "value must be a string"
-        assert value, "empty value"
+        if not value:
+            raise FIXMessageError(f"{self} validation error: empty value")
 
         if self.values:
             if value not in self.values:
